@@ -47,8 +47,29 @@ def go_trim(v):
         v = w
 
 
+# byte sequences that LOOK like a Unicode space but are not one for strings.TrimSpace: lone
+# continuation bytes, a lone start byte, truncated sequences, U+200B (zero width space), an overlong form
+NOT_USPACE = [b"\xa0", b"\x85", b"\xc2", b"\xe2\x80", b"\xe2\x80\x8b", b"\xe1\x9a", b"\xc0\xa0", b"\xe3\x80\x81"]
+
+
 def ext_value(rng, big=False):
-    return go_trim(ext_value_raw(rng, big))
+    """a header value.  About one in 15 deliberately begins and/or ends with the UTF-8 encoding of a
+    Unicode White_Space rune (strings.TrimSpace strips it: the value the proxy holds and relays is
+    go_trim(v)) or with a look-alike that is NOT white space (kept as is)."""
+    v = ext_value_raw(rng, big)
+    if rng.randrange(15) == 0:
+        def edge():
+            return rng.choice(USPACE) if rng.random() < 0.6 else rng.choice(NOT_USPACE)
+        k = rng.randrange(4)
+        if k == 0:
+            v = edge() + v
+        elif k == 1:
+            v = v + edge()
+        elif k == 2:
+            v = edge() + rng.choice([b"", b" ", b"\t"]) + v + rng.choice([b"", b" "]) + edge()
+        else:
+            v = rng.choice(USPACE) + rng.choice(USPACE) + v + rng.choice(NOT_USPACE) + rng.choice(USPACE)
+    return v                # (go_trim is no longer applied: the model trims like strings.TrimSpace)
 
 
 def ext_value_raw(rng, big=False):
@@ -91,7 +112,9 @@ class Flows:
         r = rng
         names = o.get("names") or r.choice([
             b"svc.example.com", b"svc.example.com, alt.example.net", b"sos@emergency.example",
-            b"urn:service:sos", b"tel:+15551234", b"^sos.*@example.org$", b"b.b@svc.example.com", b"gw.+local"])
+            b"urn:service:sos", b"tel:+15551234", b"^sos.*@example.org$", b"b.b@svc.example.com", b"gw.+local",
+            # a user@host name that is NOT a regular expression ('+' with nothing to repeat): only the literal comparison can match it
+            b"+1555@svc.example.com", b"other.example, +help@desk.example"])
         self.s = s = Scenario(block, name=names, keep=o.get("keep", r.random() < 0.5),
                               dialog_timeout=o.get("dialog_timeout", 1200))
         self.names = names
@@ -134,6 +157,7 @@ class Flows:
                 s.routes.append((r.choice([b"udp", b"UDP"]), dest, nh))
         self.dialogs = []          # (callid, (ftag, furi), (ttag, turi), backend or None)
         self.pending = []          # requests sent to a backend: (event, request headers..., ua)
+        self.foreign = []          # dialogs seen only in responses of non-backend peers (raw_response)
         self.seq = 0
         self.conns = []            # client connections opened to the proxy: (cid, ip, port)
         self.next_conn = 0         # connection ids are handed out in order: accepts and the proxy's own dials
@@ -157,7 +181,9 @@ class Flows:
             return b"sip:sos-" + tok(r, 0, 4) + b"@example.org"
         if n.startswith(b"gw"):
             return b"sip:x@gw" + tok(r, 1, 3) + b"local"
-        first = n.split(b",")[0].strip()
+        first = r.choice(n.split(b",")).strip()
+        if first[:1] in (b"+", b"?"):
+            return b"sip:" + first + r.choice([b"", b":5070", b";x=1"])
         if b"@" in first:
             return b"sip:" + first.replace(b"b.b", r.choice([b"b.b", b"bxb"]) if first.startswith(b"b.b") else first.split(b"@")[0])
         return b"sip:" + r.choice([b"", b"bob@", b"bob:pw@"]) + first + r.choice([b"", b":5070", b";transport=tcp", b";x;lr"])
@@ -168,11 +194,14 @@ class Flows:
         vias = []
         top = b"SIP/2.0/" + proto + b" " + r.choice([ua[0] + b":%d" % ua[1], ua[0] + b":%d" % ua[1], ua[0]])
         top += b";branch=z9hG4bK-g%d" % self.nid()
-        top += r.choice([b"", b";rport", b";rport;x=1", b";received=10.9.9.9", b";rport=1;received=10.9.9.9", b";y"])
+        top += r.choice([b"", b";rport", b";rport;x=1", b";received=10.9.9.9", b";rport=1;received=10.9.9.9", b";y", b";rport=5080"])
         vias.append(top)
         for i in range(n - 1):
-            vias.append(b"SIP/2.0/UDP up%d.example.net%s;branch=z9hG4bK-g%d%s" % (
-                i, r.choice([b"", b":5062"]), self.nid(), r.choice([b"", b";ttl=1;maddr=1.2.3.4", b";received=10.1.1.1"])))
+            # hosts further down the stack: names, and sometimes the address of a next hop (a host the proxy learns
+            # ONLY from this Via entry: it never sends a request itself)
+            host = b"up%d.example.net" % i if r.random() < 0.6 else r.choice(self.hops)[0]
+            vias.append(b"SIP/2.0/UDP %s%s;branch=z9hG4bK-g%d%s" % (
+                host, r.choice([b"", b":5062"]), self.nid(), r.choice([b"", b";ttl=1;maddr=1.2.3.4", b";received=10.1.1.1"])))
         return vias
 
     def layout(self, name, values, mode):
@@ -214,10 +243,14 @@ class Flows:
                 v = b"Alice <" + uri + (b";user=phone" if uri.startswith(b"sip:") else b"") + b">"
             else:
                 v = b"<" + uri + b">"
+        # header parameters before / after the tag; a quoted value may contain '<' '>' ',' when the URI is in <...> form
+        quoted_ok = v.startswith(b"<") or b" <" in v or b"\" <" in v
+        if rich and quoted_ok and r.random() < 0.15:
+            v += b";x-inst=\"<urn:uuid:0-1>\""
         if tag is not None:
             v += b";tag=" + tag
         if rich and r.random() < 0.3:
-            v += b";x=y"
+            v += r.choice([b";x=y", b";x=y", b";q=\"a>b\"" if quoted_ok else b";x=y"])
         return v
 
     def request(self, method, ruri, ua, frm, to, callid, cseq=None, routes=(), rr=(), proto=b"UDP", nvia=None,
@@ -234,7 +267,9 @@ class Flows:
         core += extra if extra is not None else self.extras()
         if self.o.get("shuffle", r.random() < 0.3):
             r.shuffle(core)
-        # a Max-Forwards before From sometimes (Record-Route insertion position)
+        # Via rows need not be contiguous: sometimes the last Via line comes after other headers
+        if len(hs) >= 2 and r.random() < 0.25:
+            core.insert(r.randrange(0, len(core) + 1), hs.pop())
         hs += core
         b = body if body is not None else body_bytes(r, self.o.get("big", False))
         data = msg(method + b" " + ruri + b" SIP/2.0", hs, b, cl_name=spell(r, b"Content-Length", mode))
@@ -348,8 +383,10 @@ class Flows:
                                 b"sc-%d" % self.nid(), rr=rr)
         return s.ev_udp(self.li, ua, data)
 
-    def raw_response(self):
-        """a response with an arbitrary Via stack, from a non-backend peer"""
+    def raw_response(self, method=None, code=None):
+        """a response with an arbitrary Via stack, from a non-backend peer; its dialog (both tags, no
+        backend involved) is remembered as a FOREIGN dialog: later requests inside it are addressed to
+        the service and must simply be load-balanced"""
         r, s = self.rng, self.s
         n = r.randrange(1, 7)
         l = s.listens[self.li]
@@ -358,16 +395,19 @@ class Flows:
             tr = r.choice([b"UDP", b"UDP", b"udp", b"TCP", b"TLS", b"SCTP"])
             h = r.choice([self.uas[0][0], self.uas[1][0], b"ua1.local", self.hops[0][0]])
             v = b"SIP/2.0/" + tr + b" " + h + r.choice([b"", b":5060", b":5080"]) + b";branch=z9hG4bK-r%d" % self.nid()
-            v += r.choice([b"", b";rport", b";received=" + self.uas[2][0], b";received=" + self.uas[2][0] + b";rport=5060",
+            v += r.choice([b"", b";rport", b";rport=5080", b";rport=5060", b";received=" + self.uas[2][0], b";received=" + self.uas[2][0] + b";rport=5060",
                            b";rport=abc;received=" + self.uas[1][0], b";x=1;y"])
             vias.append(v)
         mode = r.choice([0, 0, 1, 2, 3, 4])
         hs = self.layout(b"Via", vias, mode)
         a, b = self.uri_pair()
-        hs += [(spell(r, b"From", mode), self.ft(a, b"f1", True)), (spell(r, b"To", mode), self.ft(b, b"t1", True)),
-               (spell(r, b"Call-ID", mode), b"rr-%d" % self.nid()), (b"CSeq", b"%d %s" % (r.randrange(1, 99), r.choice(METHODS)))]
+        frm, to, callid = self.ft(a, b"f1", True), self.ft(b, b"t1", True), b"rr-%d" % self.nid()
+        method = method or r.choice(METHODS + [b"INVITE", b"INVITE"])
+        hs += [(spell(r, b"From", mode), frm), (spell(r, b"To", mode), to),
+               (spell(r, b"Call-ID", mode), callid), (b"CSeq", b"%d %s" % (r.randrange(1, 99), method))]
         hs += self.extras()
-        code = r.choice([100, 183, 200, 301, 404, 500, 600])
+        code = code or r.choice([100, 183, 200, 200, 301, 404, 500, 600])
+        self.foreign.append({"callid": callid, "frm": frm, "to": to, "totag": b"t1"})
         data = msg(b"SIP/2.0 %d Some Reason" % code, hs, body_bytes(r), cl_name=spell(r, b"Content-Length", mode))
         src = r.choice(self.hops)
         return s.ev_udp(self.li, src, data)
@@ -444,7 +484,7 @@ class Flows:
                 if self.outbound_tcp() is None:
                     self.route_request()
             elif k == "indialog":
-                done = [p for p in self.pending if p.get("totag") and p.get("answered_by")]
+                done = [p for p in self.pending if p.get("totag") and p.get("answered_by")] + self.foreign
                 if done:
                     p = r.choice(done)
                     # reconstruct the dialog halves from the rendered From/To is not needed: reuse the texts
@@ -510,6 +550,14 @@ def dialog_history(rng, block, n_dialogs=None, n_backends=None, opts=None):
         if k < 0.2:
             f.static_request()
             continue
+        if k < 0.27:
+            # a dialog the backends never saw: established by a response of a non-backend peer, then used
+            if f.foreign and r.random() < 0.6:
+                f.in_dialog_request(r.choice(f.foreign))
+                rot += 1
+            else:
+                f.raw_response(method=r.choice([b"INVITE", b"INVITE", b"SUBSCRIBE", b"BYE"]), code=r.choice([180, 200, 200]))
+            continue
         if d["state"] == 0:
             # initial request
             ua = r.choice(f.uas)
@@ -568,10 +616,12 @@ def tcp_history(rng, block, opts=None):
     s, r = f.s, rng
     nconn = r.randrange(2, 6)
     src_ip = s.ip(22)
+    s.hosts.append((b"cl.local", src_ip))       # a host-table NAME for the clients' address: a legal sent-by
     conns = []
     for c in range(nconn):
         s.ev_accept(f.li, src_ip, 41000 + c)
-        sentby = r.choice([src_ip + b":5060", src_ip + b":5060", src_ip + b":%d" % (5070 + c), src_ip])
+        sentby = r.choice([src_ip + b":5060", src_ip + b":5060", src_ip + b":%d" % (5070 + c), src_ip,
+                           b"cl.local:5060", b"cl.local"])
         conns.append({"cid": c, "sentby": sentby})
     open_tx = []
     n = 0
@@ -740,5 +790,9 @@ def hostile_history(rng, block, opts=None):
             conn = None                                                     # the proxy closes a connection carrying garbage
         else:
             s.ev_udp(f.li, ua, data)
+    if r.random() < 0.4:
+        # a forged / stray dialog-forming response from a peer that is no backend, then a request inside that dialog
+        f.raw_response(method=r.choice([b"INVITE", b"INVITE", b"SUBSCRIBE"]), code=r.choice([183, 200, 200]))
+        f.in_dialog_request(f.foreign[-1])
     f.to_service(method=b"OPTIONS")                                         # the proxy keeps serving
     return f
